@@ -19,7 +19,9 @@ EnumCases(mode, bottomup, keepu, leafmaps, sv, stale) ==
     {IF stale THEN WithStale(Case(mode, bottomup, keepu, f, sv)) ELSE Case(mode, bottomup, keepu, f, sv) : f \in leafmaps}
 
 \* ---- emitters (always-true invariants)
-TileRec(p, t) == [pos |-> p, px |-> t.px, rng |-> t.rng]
+\* may: the tile may be entirely undefined (colour with faint alpha: every pixel's alpha interval starts at 0) - its
+\* file may be absent; when present it must hold a defined pixel
+TileRec(p, t) == [pos |-> p, px |-> t.px, rng |-> t.rng, may |-> AllMaybeUndef(c.mode, t.px)]
 ExistingSeq(f) == LET s == SelectSeq(GeneratePos(Depth), LAMBDA p : f[p].ex)
                   IN [i \in DOMAIN s |-> TileRec(s[i], f[s[i]])]
 \* the leaves as handed to the writer (format row order), whether or not the writer stores them
@@ -30,6 +32,7 @@ GivenSeq == LET s == SelectSeq(GeneratePos(Depth), LAMBDA p : p \in DOMAIN c.lea
 Record == [id |-> c.id, mode |-> c.mode, bottomup |-> c.bottomup, ranged |-> c.ranged, keepu |-> c.keepu,
            given |-> GivenSeq, init |-> ExistingSeq(InitPyr(c)), final |-> ExistingSeq(pyr),
            live |-> SelectSeq(GeneratePos(Depth), LAMBDA p : p \in c.live),
-           ops |-> SelectSeq(GeneratePos(Depth), LAMBDA p : p \in Ops(c)), sv |-> c.sv, refused |-> Refused]
+           ops |-> SelectSeq(GeneratePos(Depth), LAMBDA p : p \in Ops(c)), sv |-> c.sv, refused |-> Refused,
+           connected |-> InDomain]
 Emit == Finished => PrintT(<<"R", ToJson(Record)>>)
 =============================================================================
